@@ -6,7 +6,7 @@
    the triangular factor, mathcomp) and Props/C20_logdet.v (its logarithm, reals). *)
 From CV Require Import Base.Tac Base.Cmp Base.LinAlg Base.QcLin Model.C20_Diff Model.C20_Spec
   Proofs.C20_Lin Proofs.C20_Stencil Proofs.C20_Null Proofs.C20_Gmrf Proofs.C20_Gmrf2d Proofs.C20_Mrf
-  Proofs.C20_Nullity Proofs.C20_Repaired.
+  Proofs.C20_Nullity Proofs.C20_Repaired Proofs.C20_Running.
 From Coq Require Import QArith Qcanon.
 Local Open Scope Z_scope.
 
@@ -366,6 +366,48 @@ Theorem C20_gmrf_rank_repaired_2d : forall N b order g,
   (g_rank g + length (null_basis_2d order b N) = N * N)%nat.
 Proof. exact gmrf_rank_fixed_2d. Qed.
 Print Assumptions C20_gmrf_rank_repaired_2d.
+
+(* ------------------------------------------------------------------------------------------------
+   9. The model instance that RUNS against the repaired tree: fd_matrix_acc + repaired rank rule.
+      Every operator it builds annihilates exactly the documented null space, every field has the
+      explicit null-space basis and reports dim - nullity: no guard, no size excluded.
+   ------------------------------------------------------------------------------------------------ *)
+Theorem C20_running_nullspace_operator : forall o b n x D,
+  fd_matrix_acc o b n = Some D -> length x = n ->
+  (zmatvec D x = zeros (length D) <-> null_cond o b x).
+Proof. exact fd_matrix_acc_null. Qed.
+Print Assumptions C20_running_nullspace_operator.
+
+Theorem C20_running_nullity_1d : forall rk dim b order g,
+  gmrf_init_gen fd_matrix_acc rk 1 dim b order = Some g ->
+  null_basis (g_prec g) dim (null_basis_1d order b dim).
+Proof. exact running_nullity_1d. Qed.
+Print Assumptions C20_running_nullity_1d.
+
+Theorem C20_running_nullity_2d : forall rk N b order g,
+  gmrf_init_gen fd_matrix_acc rk 2 (N * N) b order = Some g ->
+  null_basis (g_prec g) (N * N) (null_basis_2d order b N).
+Proof. exact running_nullity_2d. Qed.
+Print Assumptions C20_running_nullity_2d.
+
+Theorem C20_running_rank_1d : forall dim b order g,
+  gmrf_init_gen fd_matrix_acc true 1 dim b order = Some g ->
+  (g_rank g + length (null_basis_1d order b dim) = dim)%nat.
+Proof. exact running_rank_1d. Qed.
+Print Assumptions C20_running_rank_1d.
+
+Theorem C20_running_rank_2d : forall N b order g,
+  gmrf_init_gen fd_matrix_acc true 2 (N * N) b order = Some g ->
+  (g_rank g + length (null_basis_2d order b N) = N * N)%nat.
+Proof. exact running_rank_2d. Qed.
+Print Assumptions C20_running_rank_2d.
+
+(* non-vacuity: the sizes that exist only with accumulating patches *)
+Example C20_example_running :
+  (exists g, gmrf_init_gen fd_matrix_acc true 1 2 Periodic 2 = Some g /\ g_rank g = 1%nat /\
+             g_prec g = [[16; -16]; [-16; 16]]) /\
+  (exists g, gmrf_init_gen fd_matrix_acc true 2 (2 * 2) Periodic 2 = Some g /\ g_rank g = 3%nat).
+Proof. split; eexists; repeat split; vm_compute; reflexivity. Qed.
 
 (* non-vacuity of the new hypotheses *)
 Example C20_example_deepening :
